@@ -42,7 +42,7 @@ static bool is16(vnacal_type_t t)
 static int ndims(int tier, vnacal_type_t t)
 {
     if (tier == 0)
-	return 3;
+	return is16(t) ? 3 : 4;	/* 3x3: standards smaller than the VNA */
     return is16(t) ? 4 : 5;
 }
 
@@ -314,16 +314,18 @@ static void run(int tier, long idx, vf_result *r)
 	base.noise = (types[t] == VNACAL_T8 || types[t] == VNACAL_U8) ?
 	    noise : 0.0;
 	run_once(&base, 0, 0, 1, &A, r);
-	for (int av = 1; av <= 3; ++av) {
-	    var = base;
-	    cs_recipe(&var, recipe, 0, av, 0, 0);
-	    var.noise = base.noise;
-	    run_once(&var, 0, 0, 1, &B, r);
-	    snprintf(what, sizeof(what), "measurement matrices %s%s "
-		    "abbreviated", av & 1 ? "rows " : "",
-		    av & 2 ? "columns" : "");
-	    compare(r, "abbrev", tname, &A, &B, P, what);
-	}
+	for (int av = 1; av <= 3; ++av)
+	    for (int pv = 0; pv <= 1; ++pv) {
+		var = base;
+		cs_recipe(&var, recipe, 0, av, pv, 0);
+		var.noise = base.noise;
+		run_once(&var, 0, 0, 1, &B, r);
+		snprintf(what, sizeof(what), "measurement matrices %s%s "
+			"abbreviated, standard ports listed %s",
+			av & 1 ? "rows " : "", av & 2 ? "columns" : "",
+			pv ? "in reverse" : "in order");
+		compare(r, "abbrev", tname, &A, &B, P, what);
+	    }
 	break;
 
     case K_ORDER: {
